@@ -151,7 +151,9 @@ def r2(run):
     for (c0, es) in store_points(b):
         after_store |= b.reachable_blocks([c0.bb])
     # the admission test comes before anything is stored (a spliced writer has its own, later, zero-context test for the registry)
-    zs = [(bb, z, nz) for (bb, z, nz) in zero_ctx_switches(b) if bb in in_branch and bb not in after_store]
+    # (it may sit behind a `topic == "xs.context"` test of its own, e.g. in a spliced admission helper that runs before the branch)
+    in_any = b.reachable_blocks([t for (_, te, _) in regs for (_, t, _) in te])
+    zs = [(bb, z, nz) for (bb, z, nz) in zero_ctx_switches(b) if bb in in_any and bb not in after_store]
     run.ob("%s|registration|zero-context-test" % C.APPEND, bool(zs), b.sp, "the registration branch compares frame.context_id with ZERO_CONTEXT", reason="mechanism-not-found")
     for (bb, z, nz) in zs:
         reach = b.reachable_blocks([t for (_, t, _) in nz])
@@ -177,6 +179,15 @@ def r2(run):
         run.ob("%s|registration|ttl-forced-before-store" % C.APPEND, c.bb not in reach, c.sp,
                "every path from the registration branch to insert_frame passes the ttl overwrite", reason="context-ttl-not-forced")
     ins = [c for c in registry_calls(b) if c.fn == C.HASHSET_INSERT and c.bb in in_branch]
+    zero_edges = [e for (bb, z, nz) in zs for e in z]
+    b.defs()
+    topic_written = any(place_path(b.place_expr(lhs)) and place_path(b.place_expr(lhs))[-1] == "topic" for (bi, si, lhs, rv, sp) in b.field_writes)
+    if len(regs) > 1 and not topic_written:
+        # the admission test may sit behind an earlier `topic == "xs.context"` test of its own (frame.topic is never written here)
+        zero_edges = q.implied_by_same_test(b, regs, zero_edges)
+    for c in ins:
+        run.ob("%s|registration|registers-only-zero-context-frames" % C.APPEND, bool(zero_edges) and q.dominated(b, c.bb, via_edges=zero_edges), c.sp,
+               "the registry insert in append lies behind the `context_id == ZERO_CONTEXT` edge of the admission test", reason="context-frame-outside-zero")
     for c in ins:
         v = strip(c.arg(1))
         run.ob("%s|registration|registers-own-id" % C.APPEND, q.last_field(v) == "id", c.sp, "the id registered is the frame's own id: %s" % fmt(v), reason="wrong-id-registered")
